@@ -660,6 +660,13 @@ impl World {
         NOW.store(t, Ordering::SeqCst);
     }
 
+    /// Move the clock forward without processing anything (the caller knows nothing is due).
+    pub fn advance_to(&mut self, t: u64) {
+        if t > self.now {
+            self.set_now(t);
+        }
+    }
+
     pub fn note(&mut self, text: impl Into<String>) {
         if self.keep_log {
             let at = self.now;
